@@ -68,7 +68,7 @@ def n_lists(L, n, cls):
 
 def decode(code):
     sizes = [(code // 100) % 10, (code // 10) % 10, code % 10]
-    return [code // 10000, (code // 1000) % 10, [x for x in sizes if x]]
+    return [code // 10000, (code // 1000) % 10, [0 if x == 9 else x for x in sizes if x]]      # digit 9 = zero-length range
 
 
 # request sets: id*10000 + prio*1000 + s1*100 + s2*10 + s3
@@ -76,9 +76,13 @@ SETS = {
     "mixed":   [11230, 20400, 31200],        # equal priorities 1 and 3, a lower one in between
     "desc":    [12300, 21220, 30300],        # later requests are more urgent
     "equal":   [10220, 20300, 30140],        # one priority for all
-    "two2":    [10330, 21220],               # two requests of two iops
+    # zero-length ranges (size digit 9 = 0 bytes): an all-empty request (submit_single(x..x)), a request mixing an
+    # empty and a non-empty range, then a less urgent request larger than the small budget (3)
+    "empty":   [10900, 21920, 32400],
 }
 SETS_THOROUGH = {
+    "two2":    [10330, 21220],               # two requests of two iops
+    "empty2":  [11990, 20400, 32300],        # an all-empty request of two iops between a more and a less urgent one
     "three2":  [11220, 20310, 31130],        # three requests of two iops
     "iops3":   [10123, 21210],               # a three-iop request
     "asc":     [10200, 21320, 32200],
@@ -101,7 +105,8 @@ def run(prop, tier, replay):
         "finishes; 'never completes' = still unresolved after every read was completed and every future polled, "
         "with a bounded number of executor turns after each step (no wall-clock timeout)",
         "reads that fail at the object store (error results, retries) are not exercised",
-        "requests in the concurrent half have 1..3 non-empty, far apart ranges (no coalescing), priorities 0..9",
+        "requests in the concurrent half have 1..3 far apart ranges (no coalescing) of 0..8 bytes, priorities 0..9; "
+        "zero-length ranges never reach the object store: their pop/completion is inferred by Trace_IoSched",
     ]
     # ------------------------------------------------------------------------------------------
     # universes of the pure half: (file_len, max_ranges, class, blocks)
@@ -387,7 +392,7 @@ def run(prop, tier, replay):
             scen_ok += cn["End"]
             for k, n in cn.items():
                 ccounts[k] = ccounts.get(k, 0) + n
-            for k in ("sc_bypass", "sc_blocked", "sc_close", "sc_cancel", "sc_partial"):
+            for k in ("sc_bypass", "sc_blocked", "sc_close", "sc_cancel", "sc_partial", "sc_zero", "sc_zerobypass", "sc_fuzzy"):
                 feat[k] = feat.get(k, 0) + cn[k]
             if info["replayed"] < info["generated"]:
                 conc_sampled.append({"config": info["q"]["name"], "generated": info["generated"], "replayed": info["replayed"]})
@@ -407,7 +412,9 @@ def run(prop, tier, replay):
         for k, what in (("Issue", "no read was issued"), ("Resolved", "no request resolved"), ("Close", "no close"),
                         ("Pending", "no pending observation"), ("sc_bypass", "priority bypass never taken"),
                         ("sc_blocked", "backpressure never held a read back"), ("sc_cancel", "no request cancelled by close"),
-                        ("sc_partial", "no request cancelled while partly in flight")):
+                        ("sc_partial", "no request cancelled while partly in flight"),
+                        ("Silent", "no zero-byte iop"), ("sc_zero", "no all-empty request resolved"),
+                        ("sc_zerobypass", "no over-budget admission after a zero-byte request was consumed")):
             if not ccounts.get(k):
                 raise vlib.ToolError(f"vacuous concurrent replay: {what}")
         if not sampled or not nontrivial_pure:
